@@ -1,6 +1,7 @@
 (* Props/C17.v - Query attributes reach the application exactly as sent. *)
 From Coq Require Import List NArith ZArith Lia Bool.
 From MM Require Import Lib.Bytes Model.Parse Proofs.ParseProofs Gen.FactsPackets Gen.FactsCharset.
+From MM Require Import Gen.FactsOutline.
 Import ListNotations.
 Open Scope N_scope.
 
@@ -13,6 +14,12 @@ Theorem c17_source_shape :
   packets_read_params_ok = true /\ packets_read_param_value_ok = true /\ packets_parse_com_query_ok = true /\
   packets_parse_com_stmt_execute_ok = true /\ packets_interpolate_params_ok = true.
 Proof. repeat split; reflexivity. Qed.
+
+(* the modules this property rests on define the functions, classes, methods and class-level names they defined when the
+   model was transcribed - nothing added (an override, a new helper in the path), removed or renamed *)
+Theorem c17_module_outlines : translated_outline = true /\ outline_packets_ok = true.
+Proof. repeat split; reflexivity. Qed.
+
 
 (* with the capability: every attribute list and every SQL byte string come back as sent *)
 Theorem c17_query_roundtrip : forall attrs sql, forallb wf_param attrs = true -> len attrs < 2 ^ 64 ->
